@@ -50,7 +50,7 @@ func c11Leaves() []*ra.Expr {
 var c11States = []struct {
 	v   string
 	set bool
-}{{"5", true}, {"-3", true}, {"010", true}, {"0x1F", true}, {"", true}, {"", false}, {"abc", true}, {"1x", true}, {"08", true}, {"63", true}, {"64", true}, {"-9223372036854775808", true}, {"9223372036854775807", true}}
+}{{"5", true}, {"-3", true}, {"010", true}, {"0x1F", true}, {"", true}, {"", false}, {"abc", true}, {"1x", true}, {"08", true}, {"63", true}, {"64", true}, {"-9223372036854775808", true}, {"9223372036854775807", true}, {"0b11", true}, {"1_000", true}, {"0o17", true}, {"0x_f", true}}
 
 func c11Run(env *interp.ExecEnv, cs c11Case) (n int, err error, perr error) {
 	if cs.Via == "expand" {
